@@ -31,6 +31,7 @@ ALPHA = {
     "int": [0, 1, 2, -3], "float": [0.5, -1.5, 2.0, 0.0, float("inf"), float("-inf"), -0.0], "str": ["a", "b", "", "B"],
     "date": [date(2020, 1, 1), date(2020, 1, 2), date(1999, 12, 31)], "bool": [True, False],
     "tie": [1, 1.0, True, 0, 0.0, False, 2],
+    "bytes": [b"a", b"b", b"", b"B"], "tuple": [(1, "a"), (1, "b"), (0, "z"), (1,)],
 }
 
 
